@@ -17,6 +17,7 @@ ap.add_argument("--seed", type=int, default=1)
 ap.add_argument("--workers", type=int, default=2)
 ap.add_argument("--out", default="/verif/seeded/MUTSWEEP.json")
 ap.add_argument("--govc", default="/verif/bin/govc")
+ap.add_argument("--strings", action="store_true", help="string-literal mutants only")
 ap.add_argument("--skip", nargs="*", default=[], help="result files of earlier sweeps: their sites are not run again")
 a = ap.parse_args()
 ENV = dict(os.environ, GOFLAGS="", GOPROXY="off", GOSUMDB="off", GOTOOLCHAIN="local")
@@ -26,7 +27,7 @@ if not os.path.exists(MUT):
 files = [f for f in glob.glob("/repo/**/*.go", recursive=True) if not f.endswith("_test.go") and not f.endswith("verif_contracts.go") and "/docs/" not in f]
 sites = []
 for f in sorted(files):
-    n = int(subprocess.run([MUT, "-file", f, "-list"], capture_output=True, text=True).stdout.strip() or 0)
+    n = int(subprocess.run([MUT] + (["-strings"] if a.strings else []) + ["-file", f, "-list"], capture_output=True, text=True).stdout.strip() or 0)
     sites += [(f, k) for k in range(n)]
 random.Random(a.seed).shuffle(sites)
 if a.skip:
@@ -50,7 +51,7 @@ def run(job):
     t = tempfile.mkdtemp(prefix="govc-mut-", dir="/tmp")
     try:
         subprocess.run(f"rsync -a --exclude .git /repo/ {t}/repo/", shell=True, check=True)
-        r = subprocess.run([MUT, "-file", f, "-n", str(k)], capture_output=True, text=True)
+        r = subprocess.run([MUT] + (["-strings"] if a.strings else []) + ["-file", f, "-n", str(k)], capture_output=True, text=True)
         if r.returncode != 0:
             return None
         desc = r.stderr.strip().splitlines()[-1].replace("/repo/", "")
